@@ -37,6 +37,17 @@ func main() {
 		}
 		b, _ := json.MarshalIndent(p.Fingerprints(), "", " ")
 		fmt.Println(string(b))
+	case "errsurvey":
+		p, err := core.Load()
+		if err != nil {
+			fmt.Fprintln(os.Stderr, err)
+			os.Exit(2)
+		}
+		for _, e := range rules.ErrFates(p) {
+			if e.Fate != "handled" {
+				fmt.Printf("%s\t%s\t%s\t%s\n", e.Fate, e.Fn.Name, e.Callee, p.Pos(e.Pos))
+			}
+		}
 	case "check":
 		if len(os.Args) < 3 {
 			usage()
